@@ -98,6 +98,14 @@ def make_data(kind, rng, variant=0):
             "c2": pandas.Series([["p", "q"][i % 2] for i in range(n)], dtype=object),
         })
         return df, None, None
+    if kind == "frame2":
+        import pandas
+        cols = {"c1": pandas.Series([["a", "b", "c"][i % 3] for i in range(n)], dtype=object), "n1": r.randn(n)}
+        if variant % 3 == 0:
+            cols["c3"] = pandas.Series([["k", "l"][i % 2] for i in range(n)], dtype=object)
+        if variant % 3 == 2:
+            cols["c4"] = pandas.Series([["u", "v", "w"][i % 3] for i in range(n)], dtype=object)
+        return pandas.DataFrame(cols), None, None
     if kind == "text":
         words = [["cat", "dog", "bird"], ["red", "blue", "green", "cat"], ["one", "two"]][variant % 3]
         X = [" ".join(words[r.randint(len(words))] for _ in range(r.randint(1, 6))) for _ in range(n)]
@@ -166,6 +174,10 @@ def build_menu():
     E.append(Entry("QuantileLinearRegression", "QuantileLinearRegression",
                    lambda inner=None: M.QuantileLinearRegression(quantile=0.3),
                    "regw", ["predict", "score_xy"]))
+    # without intercept the design matrix handed to the inner solver IS the caller's X
+    E.append(Entry("QuantileLinearRegression[no-intercept]", "QuantileLinearRegression",
+                   lambda inner=None: M.QuantileLinearRegression(quantile=0.7, fit_intercept=False, max_iter=5),
+                   "regw", ["predict", "score_xy"]))
     E.append(Entry("QuantileLinearRegression[median]", "QuantileLinearRegression",
                    lambda inner=None: M.QuantileLinearRegression(),
                    "reg", ["predict", "score_xy"]))
@@ -190,6 +202,10 @@ def build_menu():
                    lambda inner=None: M.ClassifierAfterKMeans(estimator=clf(inner),
                                                               clus=KMeans(2, random_state=0, n_init=2)),
                    "clf", ["predict", "predict_proba"], "clf"))
+    E.append(Entry("ClassifierAfterKMeans[warm_start]", "ClassifierAfterKMeans",
+                   lambda inner=None: M.ClassifierAfterKMeans(estimator=LogisticRegression(warm_start=True, max_iter=4),
+                                                              clus=KMeans(2, random_state=0, n_init=2)),
+                   "clf", ["predict", "predict_proba"]))
     E.append(Entry("DecisionTreeLogisticRegression", "DecisionTreeLogisticRegression",
                    lambda inner=None: M.DecisionTreeLogisticRegression(estimator=clf(inner), max_depth=3,
                                                                        min_samples_leaf=3),
@@ -216,6 +232,10 @@ def build_menu():
     E.append(Entry("CategoriesToIntegers", "CategoriesToIntegers",
                    lambda inner=None: M.CategoriesToIntegers(columns=["c1", "c2"]),
                    "frame", ["transform"]))
+    # auto-detected categorical columns; the training frames of successive fits have different columns
+    E.append(Entry("CategoriesToIntegers[auto-columns]", "CategoriesToIntegers",
+                   lambda inner=None: M.CategoriesToIntegers(),
+                   "frame2", ["transform"]))
     E.append(Entry("CategoriesToIntegers[single]", "CategoriesToIntegers",
                    lambda inner=None: M.CategoriesToIntegers(columns=["c1", "c2"], single=True),
                    "frame", ["transform"]))
